@@ -49,8 +49,9 @@ class Readable(Module):
                              default=5, readonly=False, export=True)
 
     def doPoll(self):
-        self.read_value()
-        self.read_status()
+        for rfunc in self.read_value, self.read_status:
+            if getattr(rfunc, 'poll', True):  # honour @nopoll
+                rfunc()
 
 
 class Writable(Readable):
